@@ -527,6 +527,25 @@ func (tt *TermTable) FCmp(op string, a, b *Term) *Term {
 	return tt.intern(op, boolSort, a, b)
 }
 
+// FRound is fp.roundToIntegral with the given SMT-LIB rounding mode
+// (RNA = math.Round, RTN = math.Floor, RTP = math.Ceil, RTZ = math.Trunc).
+func (tt *TermTable) FRound(mode string, a *Term) *Term {
+	if a.isConst && a.sort.w == 64 {
+		x := a.fpConst()
+		switch mode {
+		case "RNA":
+			return tt.FP(64, math.Round(x))
+		case "RTN":
+			return tt.FP(64, math.Floor(x))
+		case "RTP":
+			return tt.FP(64, math.Ceil(x))
+		case "RTZ":
+			return tt.FP(64, math.Trunc(x))
+		}
+	}
+	return tt.intern("fp.roundToIntegral "+mode, a.sort, a)
+}
+
 func (tt *TermTable) FNeg(a *Term) *Term {
 	if a.isConst {
 		return tt.FP(a.sort.w, -a.fpConst())
